@@ -410,7 +410,7 @@ func (c *pathParser) addSeg(segString []byte) error {
 
 // addArcFromA adds a path of an arc element to the cursor path to the pathCursor
 func (c *pathParser) addArcFromA(points []Fl) {
-	ra, rb := float64(points[0]), float64(points[1])
+	ra, rb := math.Abs(float64(points[0])), math.Abs(float64(points[1]))
 	cx, cy := findEllipseCenter(&ra, &rb, float64(points[2])*math.Pi/180, float64(c.currentX),
 		float64(c.currentY), float64(points[5]), float64(points[6]), points[4] == 0, points[3] == 0)
 	points[0], points[1] = Fl(ra), Fl(rb)
